@@ -50,11 +50,14 @@ def r1_destination_provenance(run):
             any(a.kind == "call" for a in atoms)
         if from_md:
             # index lookups: only under the index equality
-            if "srv" in unparse(url) and not unparse(url).startswith(
+            if isinstance(url, ast.Subscript) and not unparse(url).startswith(
                     "destinations("):
+                rec = unparse(url.value)     # the record whose location is used
                 ok = any(isinstance(e, ast.Compare) and p and
                          isinstance(e.ops[0], ast.Eq) and
-                         "srv['index']" in unparse(e) and "_index" in unparse(e)
+                         "%s['index']" % rec in (unparse(e.left),
+                                                 unparse(e.comparators[0]))
+                         and "_index" in unparse(e)
                          for e, p, _ in gs)
                 run.check(ok, "R1", key, "registered location of the endpoint "
                           "whose index equals the requested one",
@@ -72,9 +75,18 @@ def r1_destination_provenance(run):
                 continue
             l, op, rr = cp
             sides = {unparse(l), unparse(rr)}
-            if isinstance(op, ast.Eq) and p and unparse(url) in sides and \
-                    "srv['location']" in sides:
-                ok = True
+            if not (isinstance(op, ast.Eq) and p and unparse(url) in sides):
+                continue
+            # the other side is <record>['location'] of a record taken from
+            # the metadata result
+            for side in (l, rr):
+                if isinstance(side, ast.Subscript) and \
+                        isinstance(side.slice, ast.Constant) and \
+                        side.slice.value == "location":
+                    ratoms = org.of(side.value, r.id)
+                    if ratoms and all(a.kind == "call" and a.text == "sfunc"
+                                      for a in ratoms):
+                        ok = True
         srv_ok = False
         for a in org.of(ast.parse("srv", mode="eval").body, r.id) \
                 if False else []:
@@ -85,14 +97,6 @@ def r1_destination_provenance(run):
                   "a value derived from %s is returned as destination without "
                   "an equality test against a registered endpoint" %
                   sorted(a.text for a in atoms), fi.loc(r.ast))
-    # `srv` iterates the metadata result
-    for lp in [n for n in walk_no_nested(fi.node) if isinstance(n, ast.For) and
-               unparse(n.target) == "srv"]:
-        run.check(unparse(lp.iter) == "srvs", "R1",
-                  fi.qual + "::for srv in " + unparse(lp.iter),
-                  "iterates the metadata service list",
-                  "srv iterates %s" % unparse(lp.iter), fi.loc(lp),
-                  nontrivial=False)
     sr = [s for s in walk_no_nested(fi.node) if isinstance(s, ast.Assign) and
           unparse(s.targets[0]) == "srvs"]
     run.check(len(sr) == 1 and unparse(sr[0].value) ==
